@@ -1,6 +1,7 @@
 """C12 property-level bounded stand-in: for the eight writers -- model unchanged (deep snapshot), returned value equals the
 file content, repeated calls and fresh processes under different PYTHONHASHSEED / LC_ALL / PYTHONUTF8 give byte-identical
 files (configuration sampling), files are UTF-8 and non-ASCII names survive a write/read cycle where a reader exists."""
+import copy
 import os
 import subprocess
 import sys
@@ -95,6 +96,43 @@ def main():
             w = WRITERS[i % len(WRITERS)].__name__
             run.case('byte-identical across processes / hash seeds / locales', f'{e}:{i}', base[i] == o[i],
                      f'{w} on model {i // len(WRITERS)} differs between {envs[0]} and {e}', sub[i // len(WRITERS)])
+    # history: a model whose relations list their members in the opposite order is another model for a writer (other text) but
+    # an equal one for == / hash; written in this process after its twin, it must give the text a fresh process gives it
+    import hashlib
+
+    def reversed_members(d):
+        d = copy.deepcopy(d)
+        for ftr, _, _ in d_features(d):
+            for r in ftr.get('relations', []):
+                r['children'].reverse()
+        return d
+    twins = [reversed_members(d) for d in sub]
+    here = []
+    for k, desc in enumerate(twins):
+        m = M.build_model(desc)
+        for W in WRITERS:
+            p = os.path.join(tmp, f't{k}.{W.__name__}')
+            try:
+                W(p, m).transform()
+                here.append(hashlib.sha256(open(p, 'rb').read()).hexdigest()[:16])
+            except Exception as e:  # noqa: BLE001
+                here.append('raised:' + type(e).__name__)
+    f2 = os.path.join(tmp, 'twins.json')
+    json.dump(twins, open(f2, 'w'))
+    env = dict(os.environ)
+    env.update(envs[0])
+    p = subprocess.run([sys.executable, os.path.join(HERE, 'standin', 'props', 'c12_child.py'), f2], capture_output=True, text=True, env=env, timeout=600)
+    try:
+        fresh = json.loads(p.stdout.strip().splitlines()[-1])
+    except Exception:
+        run.case('child process ran', 'twins', False, p.stderr[-500:])
+        fresh = None
+    if fresh is not None:
+        for i in range(len(fresh)):
+            w = WRITERS[i % len(WRITERS)].__name__
+            run.case('independent of the models written earlier in the process', f'twin:{i}', here[i] == fresh[i],
+                     f'{w}: the text of a model written after its member-reversed twin differs from the text a fresh process gives',
+                     twins[i // len(WRITERS)])
     # non-ASCII names survive where a reader exists
     desc = unicode_model()
     exp = sorted(f['name'] for f, _, _ in d_features(desc))
